@@ -15,14 +15,20 @@ ASSUMPTIONS = [
     "only the orchestrator's accounting (AgentsMgt handlers, global_metrics) is executed",
     "messages of one agent reach the orchestrator in the order they were produced (FIFO per agent); agents interleave arbitrarily",
     "cost tables are symbolic integers in [-2^40, 2^40]; numpy storage replaced by object arrays",
-    "start-up jobs: the directory round trip is replaced by its effect (Discovery.register_agent / register_computation with "
-    "publish=False on the orchestrator's discovery, as DiscoveryComputation does on a directory notification); an agent "
+    "run-loop job: the caller's thread only yields where it hands a message to the orchestrator's thread or waits for an event "
+    "(interleavings at a finer grain, between two ordinary statements of run(), are explored only at those points)",
+    "start-up job on chain-3 ('direct'): the directory round trip is replaced by its effect on the orchestrator's discovery",
+    "start-up job on the pair: the orchestrator agent's queue is modelled as one FIFO shared by its directory and discovery computations "
+    "(all discovery messages have the same priority); agents' publications arrive in it at any time; an agent "
     "registers a computation only after receiving its DeployMessage; the deploy / run orders are handled at any point after "
     "the event the main thread waits for is set",
 ]
 BOUNDS = {"quick": "DPOP on pair and chain-3 (min and max), distributions: one agent per computation / all on one agent / first two together; canonical DPOP schedule, all interleavings of the management messages",
           "thorough": "quick + triangle and pair with variable cost, all DPOP schedules on the pair; start-up on chain-3 with two spare agents",
           }
+BOUNDS["quick"] += ("; Orchestrator.run() executed by a helper thread in lockstep with the handling of the run order and of the "
+                    "agents' messages (pair, one agent per computation, tables in [0, 3]), every interleaving at the "
+                    "synchronisation points")
 BOUNDS["quick"] += ("; start-up phase (agent registration incl. spare agents sorting before / after the used ones, deployment, "
                     "computation registration, run order) in every interleaving on pair (2 spares) and chain-3 (1 spare)")
 OUTSIDE = "real threads, timeouts, the solve CLI, other algorithms than DPOP"
@@ -37,10 +43,168 @@ def jobs(tier):
     if tier == "thorough":
         out.append({"name": "pair-min-allsched", "spec": spec("pair", "min"), "fixed": False})
     # start-up phase: registration of used and spare agents, deployment, computation registration, run order
-    out.append({"name": "startup-pair", "spec": spec("pair", "min"), "startup": True, "spares": ["a", "zz"]})
-    out.append({"name": "startup-chain3", "spec": spec("chain3", "min"), "startup": True,
+    # the thread calling Orchestrator.run(), in lockstep with the orchestrator's own thread
+    out.append({"name": "runloop-pair", "spec": spec("pair", "min"), "runloop": True})
+    out.append({"name": "startup-pair", "spec": spec("pair", "min"), "startup": True, "spares": ["a"] if tier == "quick" else ["a", "zz"]})
+    # chain-3: the directory round trip is replaced by its effect (register_* with publish=False on the orchestrator's
+    # discovery, as its discovery computation does on a notification); the queue model above exceeds 2 million paths there
+    out.append({"name": "startup-chain3-direct", "spec": spec("chain3", "min"), "startup": True, "direct": True,
                 "spares": ["a"] if tier == "quick" else ["a", "zz"]})
     return out
+
+
+class _Abort(BaseException):
+    pass
+
+
+class Lockstep:
+    """Runs fn in a helper thread that only advances when the harness calls step(): the code of the thread calling
+    Orchestrator.run() is executed for real, between the points where it synchronises with the orchestrator's own thread."""
+
+    def __init__(self, fn):
+        import threading
+        self.to_thread, self.to_main = threading.Semaphore(0), threading.Semaphore(0)
+        self.done, self.exc, self.abort = False, None, False
+        self.t = threading.Thread(target=self._run, args=(fn,), daemon=True)
+        self.t.start()
+
+    def _run(self, fn):
+        self.to_thread.acquire()
+        try:
+            if not self.abort:
+                fn()
+        except _Abort:
+            pass
+        except BaseException as e:
+            self.exc = e
+        self.done = True
+        self.to_main.release()
+
+    def yield_(self):
+        self.to_main.release()
+        self.to_thread.acquire()
+        if self.abort:
+            raise _Abort()
+
+    def step(self):
+        self.to_thread.release()
+        self.to_main.acquire()
+
+    def close(self):
+        if not self.done:
+            self.abort = True
+            self.to_thread.release()
+            self.t.join(5)
+
+
+def run_runloop(eng, p):
+    """Orchestrator.run() itself (the calling thread), interleaved at its synchronisation points with the orchestrator's
+    thread handling the run order and the agents' value_change / end_of_computation messages (per-sender FIFO)."""
+    begin(eng, random_modules=["pydcop.algorithms.dpop"], float_modules=["pydcop.algorithms.dpop"])
+    from pydcop.infrastructure.communication import InProcessCommunicationLayer
+    from pydcop.infrastructure.orchestrator import Orchestrator, ValueChangeMessage, ComputationFinishedMessage
+    from pydcop.distribution.objects import Distribution
+    from pydcop.dcop.objects import AgentDef
+    inst = Instance(eng, p["spec"], lo=0, hi=3)
+    cg, comps = build_computations(inst.dcop, "dpop", inst.mode)
+    names = [c.name for c in comps]
+    host = {n: "a%d" % i for i, n in enumerate(names)}
+    agents = sorted(set(host.values()))
+    inst.dcop.add_agents([AgentDef(a) for a in agents])
+    mapping = {a: [n for n in names if host[n] == a] for a in agents}
+    orch = Orchestrator(comps[0].computation_def.algo, cg, Distribution(mapping), InProcessCommunicationLayer(), inst.dcop)
+    mgt = orch.mgt
+    mgt.message_sender = lambda *a, **k: None
+    sent, stops, failures, delivered = [], [], [], []
+    mgt._send_mgt_msg = lambda agt, msg: sent.append((agt, msg))
+    mgt.discovery.agents = lambda *a, **k: list(agents)
+    stopped = [False]
+
+    def stop_agents_order(*a):
+        stops.append(len(delivered))
+        stopped[0] = True
+    mgt._orchestrator_stop_agents = stop_agents_order
+    orch.stop_agents = lambda *a, **k: failures.append("critical error path")
+    mgt.stop = lambda *a, **k: None
+    main_channel = []
+    ls = [None]
+
+    main_state = ["running"]
+
+    def mgt_method(method, arg):
+        main_channel.append(method)
+        main_state[0] = "posted"
+        ls[0].yield_()
+        main_state[0] = "running"
+    orch._mgt_method = mgt_method
+
+    def wait_stop_agents(timeout=None):
+        while not stopped[0]:
+            main_state[0] = "waiting_stop"
+            ls[0].yield_()
+        main_state[0] = "running"
+    mgt.wait_stop_agents = wait_stop_agents
+    orch._own_agt.clean_shutdown = lambda *a, **k: None
+    orch._own_agt.join = lambda *a, **k: None
+    mgt.ready_to_run.set()
+    ls[0] = Lockstep(lambda: orch.run(timeout=None))
+    outbox = {a: [] for a in agents}
+    finished_seen, stop_when, started, trace = set(), None, False, []
+    try:
+        while True:
+            ev = []
+            if not ls[0].done and (main_state[0] != "waiting_stop" or stopped[0]):
+                ev.append("main")
+            if main_channel:
+                ev.append("order")
+            ev += [a for a in agents if outbox[a]]
+            if not ev:
+                break
+            e = ev[eng.choose(len(ev), "runloop_sched")]
+            if e == "main":
+                ls[0].step()
+                trace.append("main:" + ("returned" if ls[0].done else main_state[0]))
+                if ls[0].exc:
+                    raise ls[0].exc
+            elif e == "order":
+                method = main_channel.pop(0)
+                trace.append(method)
+                mgt.on_message("orchestrator", type("M", (), {"type": method})(), 0.0)
+                if method == "_orchestrator_run_computations":
+                    started = True
+                    # the agents run their computations: DPOP on the bench, management messages collected per agent (FIFO)
+                    bench = Bench(eng)
+                    bench.fixed_schedule = True
+                    for c in comps:
+                        bench.add(c)
+                    bench.on_select = lambda name, val, cost, cycle: outbox[host[name]].append(
+                        ValueChangeMessage(host[name], name, val, cost, cycle, {}))
+                    bench.on_finished = lambda name: outbox[host[name]].append(ComputationFinishedMessage(host[name], name))
+                    bench.start_all()
+                    bench.run(max_steps=200)
+            else:
+                msg = outbox[e].pop(0)
+                delivered.append((e, msg.type))
+                trace.append((e, msg.type))
+                mgt.on_message("_mgt_" + e, msg, float(len(delivered)))
+                if msg.type == "end_of_computation":
+                    finished_seen.add(msg.computation)
+                    if finished_seen == set(names) and stop_when is None:
+                        stop_when = len(delivered)
+    finally:
+        ls[0].close()
+    eng.notes["outcome"] = {"trace": [str(t) for t in trace], "stops": stops, "run_returned": ls[0].done}
+    eng.prove(not failures, "the orchestrator hit its critical-error path", detail=str(trace))
+    eng.prove(finished_seen == set(names), "not every computation reported its end", detail=str(trace))
+    eng.prove(stops == [stop_when], "the stop order was not issued exactly once, when the last computation reported its end "
+              "(the run would only end on its timeout)", detail=str((stops, stop_when, trace)))
+    eng.prove(ls[0].done, "Orchestrator.run() did not return after the agents were stopped", detail=str(trace))
+    metrics = mgt.global_metrics("END", 0.0)
+    asg = metrics["assignment"]
+    ok = set(asg) == set(inst.var_names()) and all(asg[v] in inst.domains[v] for v in asg)
+    eng.prove(ok, "reported assignment does not cover every variable with a domain value", detail=str(asg))
+    if ok:
+        eng.prove(inst.is_optimal(asg), "reported assignment is not optimal", detail=str(asg))
 
 
 def run_startup(eng, p):
@@ -74,7 +238,15 @@ def run_startup(eng, p):
     algo = comps[0].computation_def.algo
     orch = Orchestrator(algo, cg, Distribution(mapping), InProcessCommunicationLayer(), inst.dcop)
     mgt, disco = orch.mgt, orch.discovery
-    disco.discovery_computation.send_to_directory = lambda m: None
+    # the orchestrator agent's own message queue (discovery messages all have the same priority: FIFO), holding the
+    # messages exchanged by its directory and discovery computations and the publications arriving from the agents
+    from pydcop.infrastructure.discovery import PublishAgentMessage, PublishComputationMessage
+    oq = []
+    local = {c.name: c for c in (orch.directory.directory_computation, disco.discovery_computation)}
+    direct = bool(p.get("direct"))
+    for c in local.values():
+        c._msg_sender = lambda src, dest, msg, prio=None, on_error=None: (
+            oq.append((src, dest, msg)) if (dest in local and not direct) else None)
     sent = []
     mgt._send_mgt_msg = lambda agt, msg: sent.append((agt, msg))
     failures = []
@@ -86,8 +258,12 @@ def run_startup(eng, p):
     to_publish = []            # (agent, computation) whose DeployMessage was received
     registered, published = set(), set()
     deployed, run_given, trace, bad = False, False, [], []
+    quiet_handle = False       # the previous event handled a message without posting any: an arrival now would give the same
+    #                            state as the arrival before that handling (it goes to the tail of the queue), explored elsewhere
     while True:
-        ev = [("agent", a) for a in to_register] + [("comp", ac) for ac in to_publish]
+        ev = [] if quiet_handle else [("agent", a) for a in to_register] + [("comp", ac) for ac in to_publish]
+        if oq:
+            ev.append(("handle", None))
         if mgt.all_registered.is_set() and not deployed:
             ev.append(("deploy", None))
         if mgt.ready_to_run.is_set() and not run_given:
@@ -97,14 +273,29 @@ def run_startup(eng, p):
         kind, arg = ev[eng.choose(len(ev), "startup_sched")]
         trace.append((kind, arg))
         n0 = len(sent)
+        q0 = len(oq)
         if kind == "agent":
             to_register.remove(arg)
-            registered.add(arg)
-            disco.register_agent(arg, "addr_" + arg, publish=False)
+            if direct:
+                registered.add(arg)
+                disco.register_agent(arg, "addr_" + arg, publish=False)
+            else:
+                oq.append(("_discovery_" + arg, "_directory", PublishAgentMessage(arg, "addr_" + arg)))
         elif kind == "comp":
             to_publish.remove(arg)
-            published.add(arg[1])
-            disco.register_computation(arg[1], arg[0], publish=False)
+            if direct:
+                published.add(arg[1])
+                disco.register_computation(arg[1], arg[0], publish=False)
+            else:
+                oq.append(("_discovery_" + arg[0], "_directory", PublishComputationMessage(arg[1], arg[0], "addr_" + arg[0])))
+        elif kind == "handle":
+            src, dest, msg = oq.pop(0)
+            trace[-1] = ("handle", "%s<-%s:%s" % (dest, src, msg.type))
+            if dest == "_directory" and msg.type == "publish_agent":
+                registered.add(msg.agents)
+            if dest == "_directory" and msg.type == "publish_computation":
+                published.add(msg.computation)
+            local[dest].on_message(src, msg, 0.0)
         elif kind == "deploy":
             deployed = True
             mgt.on_message("orchestrator", type("M", (), {"type": "_orchestrator_deploy_computations"})(), 0.0)
@@ -114,15 +305,18 @@ def run_startup(eng, p):
         else:
             run_given = True
             mgt.on_message("orchestrator", type("M", (), {"type": "_orchestrator_run_computations"})(), 0.0)
+        quiet_handle = kind == "handle" and len(oq) == q0 - 1 and q0 > 1
         if mgt.all_registered.is_set() and not set(used) <= registered:
             bad.append("all_registered set while %s not registered" % sorted(set(used) - registered))
         if mgt.ready_to_run.is_set() and not set(names) <= published:
             bad.append("ready_to_run set while %s not deployed" % sorted(set(names) - published))
+        if mgt._all_agt_stopped.is_set():
+            bad.append("all agents considered stopped during start-up (Orchestrator.run() would return at once)")
     deploys = sorted((a, m.comp_def.node.name) for a, m in sent if m.type == "deploy")
     runs = {a: sorted(m.computations) for a, m in sent if m.type == "run_computations"}
     eng.notes["outcome"] = {"dist": dist_kind, "trace": [str(t) for t in trace], "deploys": deploys, "bad": bad}
     eng.prove(not failures, "the orchestrator hit its critical-error path during start-up", detail=str(trace))
-    eng.prove(not bad, "all_registered / ready_to_run raised too early", detail=str((bad, trace)))
+    eng.prove(not bad, "start-up flags wrong (all_registered / ready_to_run raised too early, or all agents considered stopped)", detail=str((bad, trace)))
     eng.prove(deploys == sorted((host[n], n) for n in names),
               "computations were not deployed exactly once each on their host", detail=str((deploys, trace)))
     eng.prove(deployed and run_given, "the run order is never given: Orchestrator.run() would block for ever",
@@ -134,6 +328,8 @@ def run_startup(eng, p):
 def run(eng, p):
     if p.get("startup"):
         return run_startup(eng, p)
+    if p.get("runloop"):
+        return run_runloop(eng, p)
     begin(eng, random_modules=["pydcop.algorithms.dpop"], float_modules=["pydcop.algorithms.dpop"])
     import pydcop.infrastructure.orchestrator as orch_mod
     from pydcop.infrastructure.communication import InProcessCommunicationLayer
